@@ -248,6 +248,76 @@ def work_fit(args):
     return fval(x) * 100 + (10 * len(pos) + pos[0] if pos else 99)
 
 
+# ---- KINDS of callables mapped through SneakyPool.map (as the function, or as one of the arguments).  A sampler maps its
+# own callables through the pool: the log likelihood (Fitness, emcee's _FunctionWrapper, dynesty's _function_wrapper named
+# "loglikelihood": replaced by the worker's own copy of the fitness) and OTHER callables (dynesty's wrapped prior transform,
+# partials, callable objects, plain functions: evaluated as they are).
+def _triple(a):
+    return int(a[0]), int(a[1]), int(a[2])
+
+
+def work_arr(a, off=1000000):
+    """a function that is NOT the likelihood (e.g. a prior transform): a = [jid, x, mode] (list, tuple or numpy array)"""
+    jid, x, mode = _triple(a)
+    if jid >= 0:
+        _enter(jid)
+    v = outcome_of(x, mode)
+    return v + off if mode == 0 else v
+
+
+def small_pt(a):
+    """a callable handed over as an ARGUMENT that is not the likelihood"""
+    return 3 * int(a[1]) + 1
+
+
+class Adder:
+    """a picklable callable object"""
+
+    def __init__(self, off):
+        self.off = off
+
+    def __call__(self, a):
+        return work_arr(a, self.off)
+
+
+def work_callarg(args):
+    """mapped over tuples that hold ONE callable at some position: the evaluation calls it"""
+    pos = [i for i, a in enumerate(args) if callable(a)]
+    rest = [a for a in args if not callable(a)]
+    jid, x, mode = _triple(rest)
+    _enter(jid)
+    if mode:
+        return outcome_of(x, mode)
+    return 10 * int(args[pos[0]]([-1, x, 0])) + pos[0]
+
+
+def make_callable(kind, fitness):
+    import functools
+    from dynesty.dynesty import _function_wrapper
+    from emcee.ensemble import _FunctionWrapper
+    if kind == "fitness":
+        return fitness
+    if kind == "emcee_wrap":
+        return _FunctionWrapper(fitness.__call__, None, None)
+    if kind == "dynesty_ll":
+        return _function_wrapper(fitness.__call__, [], {}, name="loglikelihood")
+    if kind == "dynesty_pt":
+        return _function_wrapper(work_arr, [], {}, name="prior_transform")
+    if kind == "dynesty_other":
+        return _function_wrapper(work_arr, [], {"off": 4000000}, name="input")
+    if kind == "partial":
+        return functools.partial(work_arr, off=2000000)
+    if kind == "object":
+        return Adder(3000000)
+    if kind == "plain":
+        return work_arr
+    if kind == "arg_dynesty_pt":
+        return _function_wrapper(small_pt, [], {}, name="prior_transform")
+    if kind == "arg_partial":
+        return functools.partial(work_arr, off=5)
+    raise KeyError(kind)
+
+
 def work_big(args):
     """a result far larger than a pipe buffer"""
     jid, x, mode, delay = args
@@ -535,7 +605,13 @@ def serial_of(batch, base, fitness):
     out = []
     for i, (x, mode) in enumerate(batch["jobs"]):
         try:
-            if batch.get("scalar"):
+            if batch.get("fkind"):
+                out.append(["ok", enc(make_callable(batch["fkind"], fitness)((base + i, x, mode)))])
+            elif batch.get("akind"):
+                a = [base + i, x, mode]
+                a.insert(batch["apos"], make_callable(batch["akind"], fitness))
+                out.append(["ok", enc(work_callarg(tuple(a)))])
+            elif batch.get("scalar"):
                 out.append(["ok", enc(work_scalar([scalar_arg(x)]))])
             elif batch.get("fitpos") is not None:
                 a = [base + i, x, mode]
@@ -550,7 +626,7 @@ def serial_of(batch, base, fitness):
 
 def case_smap(c):
     """SneakyPool.map: several batches on one pool, steered"""
-    fitness = TableFitness([("ok", 1)])
+    fitness = WorkFitness()
     sp = SteeredPool(c["procs"], fitness=fitness, paths=None)
     out = []
     try:
@@ -558,7 +634,20 @@ def case_smap(c):
             base = 64 * b
             jobs = batch["jobs"]
             st = sp.begin(batch["sched"])
-            if batch.get("scalar"):
+            if batch.get("fkind"):
+                # the KIND of callable that is mapped (the serial loop calls the same object on the same tuples)
+                fn = make_callable(batch["fkind"], fitness)
+                args_list = [(base + i, x, mode) for i, (x, mode) in enumerate(jobs)]
+                jids = [base + i for i in range(len(jobs))]
+            elif batch.get("akind"):
+                # a callable among the ARGUMENTS, at position apos
+                args_list = []
+                for i, (x, mode) in enumerate(jobs):
+                    a = [base + i, x, mode]
+                    a.insert(batch["apos"], make_callable(batch["akind"], fitness))
+                    args_list.append(tuple(a))
+                fn, jids = work_callarg, [base + i for i in range(len(jobs))]
+            elif batch.get("scalar"):
                 fn, args_list, jids = work_scalar, [scalar_arg(x) for x, _ in jobs], [x for x, _ in jobs]
             elif batch.get("fitpos") is not None:
                 args_list = []
@@ -691,6 +780,20 @@ class TableFitness(fit_mod.Fitness):
         raise WorkError(v)
 
 
+class WorkFitness(fit_mod.Fitness):
+    """the fitness object of the smap pools: parameters = [jid, x, mode]; gated and counted like every evaluation
+    (jid < 0: called from inside another evaluation, no gate)"""
+
+    def __init__(self):
+        super().__init__(model=None, analysis=None)
+
+    def __call__(self, parameters, *kwargs):
+        jid, x, mode = _triple(parameters)
+        if jid >= 0:
+            _enter(jid)
+        return outcome_of(x, mode)
+
+
 class ScriptedInitializer(init_mod.AbstractInitializer):
     def __init__(self, n_stream):
         self.k = 0
@@ -704,8 +807,8 @@ class ScriptedInitializer(init_mod.AbstractInitializer):
         return [u]
 
 
-def case_init(c):
-    """AbstractInitializer.samples_from_model with n_cores processes, steered"""
+def _init_call(ini, c):
+    """one samples_from_model call of the initializer object `ini` (its scripted stream restarted for this call)"""
     table = [tuple(t) for t in c["stream"]]
     fitness = TableFitness(table)
     model = af.Collection(p=af.UniformPrior(lower_limit=0.0, upper_limit=1024.0))
@@ -725,7 +828,8 @@ def case_init(c):
             sp.pool.map = map_
             return sp.pool
 
-    ini = ScriptedInitializer(len(table))
+    ini.k = 0
+    ini.n_stream = len(table)
     saved = init_mod.SneakyPool
     init_mod.SneakyPool = PatchedPool
     res = {}
@@ -743,12 +847,25 @@ def case_init(c):
             res = {"raised": [type(e).__name__, str(e)[:80]]}
         res["drawn"] = ini.k
         res["evals"] = evals_of(range(len(table)))
+        res["pools"] = len(created)
         if created:
             res["pend"], res["resq"] = created[0].residue()
     finally:
         init_mod.SneakyPool = saved
         for sp in created:
             sp.close()
+    return res
+
+
+def case_init(c):
+    """AbstractInitializer.samples_from_model with n_cores processes, steered; with "again": ONE initializer object used for
+    a second call with another fitness, another number of cores and another number of points (each call is compared with
+    what a fresh initializer gives: its own stream)"""
+    ini = ScriptedInitializer(len(c["stream"]))
+    res = _init_call(ini, c)
+    if c.get("again"):
+        cleanup_children()
+        res["again"] = _init_call(ini, c["again"])
     return res
 
 
@@ -1307,6 +1424,8 @@ def case_limit(c):
     """seconds one case may take (a steered case normally takes well under a second)"""
     if c["kind"] == "jobs_race":
         return 30 + 0.3 * int(c.get("repeat", 0))
+    if c["kind"] == "jobs_seq" or c.get("again"):
+        return 70        # a history of calls; every wait inside is bounded by WAIT, a stalled call ends the history
     return 45
 
 
